@@ -20,7 +20,7 @@ func c09Merge(c *vk.Ctx) {
 	for v0 := 0; v0 < harness.C09VerdictModes; v0++ {
 		for v1 := 0; v1 < harness.C09VerdictModes; v1++ {
 			for s := 0; s < harness.C09Scripts; s++ {
-				if s == 4 || s == 5 {
+				if s == 4 || s == 5 || s >= 7 {
 					continue
 				}
 				jobs = append(jobs, Job{Harness: "MergeOKCount", Bound: bound, BudgetS: vk.Pick(c, 8.0, 300.0), FallbackDelay: vk.Pick(c, 4, 7), Params: map[string]int{"n": 2, "v0": v0, "v1": v1, "script": s}})
@@ -29,7 +29,7 @@ func c09Merge(c *vk.Ctx) {
 	}
 	for k0 := 0; k0 < 3; k0++ {
 		for k1 := 0; k1 < 3; k1++ {
-			for _, s := range []int{4, 5, 6} {
+			for _, s := range []int{4, 5, 6, 7, 8, 9} {
 				jobs = append(jobs, Job{Harness: "MergeOKCount", Bound: bound, BudgetS: vk.Pick(c, 8.0, 300.0), FallbackDelay: vk.Pick(c, 4, 7), Params: map[string]int{"n": 2, "k0": k0, "k1": k1, "script": s, "v0": k0 % 2, "v1": 0}})
 			}
 		}
